@@ -4,6 +4,7 @@ package main
 // canonical result line. Only the outcome class of an error is reported (DESIGN §3).
 
 import (
+	"bytes"
 	"encoding/hex"
 	"fmt"
 	"os"
@@ -360,6 +361,77 @@ func execOp(line string) string {
 			}
 			return "ok " + one(a) + " ; " + one(b) + " ; " + one(append(append([]byte{}, a...), b...))
 		})
+	case "hold":
+		// hold.K <value 1> | <value 2>: the bytes returned for value 1 must not change when value 2 is marshalled
+		parts := strings.SplitN(args, " | ", 2)
+		if len(parts) != 2 {
+			return "bad-op hold"
+		}
+		return guarded(func() string {
+			b1, e1 := marshalAny(kind, NewR(parts[0]))
+			snap := append([]byte{}, b1...)
+			b2, e2 := marshalAny(kind, NewR(parts[1]))
+			if e1 == nil && kind != "RAW" && !bytes.Equal(b1, snap) {
+				return "mutated bytes-returned-by-an-earlier-Marshal"
+			}
+			f := func(b []byte, e error) string {
+				if e != nil {
+					return "err"
+				}
+				return hexOrDash(b)
+			}
+			return "ok " + f(snap, e1) + " ; " + f(b2, e2)
+		})
+	case "relay":
+		// a forwarder: decode a datagram, insert a packet of its own behind the first one, marshal the list
+		raw := NewR(args).H()
+		buf := exactCap(raw)
+		return guarded(func() string {
+			ps, err := rtcp.Unmarshal(buf)
+			if err != nil {
+				return "err"
+			}
+			t0 := packetsTokens(ps)
+			stable := func() string { // tokens of the packets, XR left out (its Marshal fills in block headers, as documented)
+				var qs []rtcp.Packet
+				for _, p := range ps {
+					if _, ok := p.(*rtcp.ExtendedReport); !ok {
+						qs = append(qs, p)
+					}
+				}
+				return packetsTokens(qs)
+			}
+			s0 := stable()
+			var want []byte
+			pli := &rtcp.PictureLossIndication{SenderSSRC: 1, MediaSSRC: 2}
+			for i, p := range ps {
+				e, err := p.Marshal()
+				if err != nil {
+					return "ok " + t0 + " ; err"
+				}
+				want = append(want, e...)
+				if i == 0 {
+					e, _ := pli.Marshal()
+					want = append(want, e...)
+				}
+			}
+			list := append([]rtcp.Packet{ps[0], pli}, ps[1:]...)
+			out, err := rtcp.Marshal(list)
+			if err != nil {
+				return "ok " + t0 + " ; err"
+			}
+			if stable() != s0 {
+				return "mutated packets-given-to-Marshal"
+			}
+			if !bytes.Equal(buf, raw) {
+				return "mutated input-buffer-of-Unmarshal"
+			}
+			c := "concat-ok"
+			if !bytes.Equal(out, want) {
+				c = "concat-differs"
+			}
+			return "ok " + t0 + " ; " + hexOrDash(out) + " ; " + c
+		})
 	case "reenc":
 		b := exactCap(NewR(args).H())
 		return guarded(func() string {
@@ -543,54 +615,39 @@ func execDec(kind string, b []byte) string {
 	return "ok " + bodyTokens(p)
 }
 
-func execEnc(kind string, r *R) string {
+// marshalAny: Marshal of a packet or sub-structure value read from tokens
+func marshalAny(kind string, r *R) ([]byte, error) {
 	switch kind {
 	case "HDR":
-		b, err := getHeader(r).Marshal()
-		if err != nil {
-			return "err"
-		}
-		return okHex(b)
+		return getHeader(r).Marshal()
 	case "RREP":
-		b, err := getRRep(r).Marshal()
-		if err != nil {
-			return "err"
-		}
-		return okHex(b)
+		return getRRep(r).Marshal()
 	case "CHUNK":
-		b, err := getChunk(r).Marshal()
-		if err != nil {
-			return "err"
-		}
-		return okHex(b)
+		return getChunk(r).Marshal()
 	case "ITEM":
-		b, err := getItem(r).Marshal()
-		if err != nil {
-			return "err"
-		}
-		return okHex(b)
+		return getItem(r).Marshal()
 	case "TCHUNK":
-		b, err := getTwccChunk(r).Marshal()
-		if err != nil {
-			return "err"
-		}
-		return okHex(b)
+		return getTwccChunk(r).Marshal()
 	case "DELTA":
 		d := rtcp.RecvDelta{Type: uint16(r.U()), Delta: r.I()}
-		b, err := d.Marshal()
+		return d.Marshal()
+	}
+	return getBody(r, kind).Marshal()
+}
+
+func execEnc(kind string, r *R) string {
+	if kind == "XR" {
+		p := getBody(r, kind)
+		b, err := p.Marshal()
 		if err != nil {
 			return "err"
 		}
-		return okHex(b)
-	}
-	p := getBody(r, kind)
-	b, err := p.Marshal()
-	if err != nil {
-		return "err"
-	}
-	if kind == "XR" {
 		// Marshal fills in the blocks' header fields through the pointers: report the value afterwards
 		return okHex(b) + " " + bodyTokens(p)
+	}
+	b, err := marshalAny(kind, r)
+	if err != nil {
+		return "err"
 	}
 	return okHex(b)
 }
